@@ -192,7 +192,7 @@ export async function run(ctx) {
     // the unmodified corpus itself (every test program of the repository must stay total)
     for (const c of corpusPrograms()) await judge(ctx, { files: { "entry.ts": c.text }, settings: { string_formats: ["password", "User", "ReadAuthorizedUser", "WriteAuthorizedUser"], number_formats: ["age", "NonInfiniteNumber", "NonNegativeNumber", "Rate"] } }, "corpus-verbatim");
   }
-  const n = ctx.share(60000, 2000000);
+  const n = ctx.share(240000, 6000000);
   for (let i = 0; i < n; i++) {
     const rng = new Rng(ctx.seed, `C04|${ctx.shard}|${i}`);
     const kind = rng.wpick([
@@ -206,8 +206,63 @@ export async function run(ctx) {
     if (ctx.shard === 0 && i < 4) ctx.sample({ stream: p.label, files: Object.fromEntries(Object.entries(p.files).map(([k, v]) => [k, v.slice(0, 300)])) });
     await judge(ctx, req, p.label);
   }
+  // every (container of a self-reference) x (type operator) combination: the recursion guards of the
+  // frontend, the semantic path and the printer, enumerated rather than sampled
+  {
+    const containers = [
+      ["set", (n) => `Set<${n}>`],
+      ["set-union", (n) => `Set<${n} | number>`],
+      ["set-object", (n) => `Set<{ label: string; below: ${n} }>`],
+      ["map", (n) => `Map<string, ${n}>`],
+      ["map-key", (n) => `Map<${n}, string>`],
+      ["array", (n) => `${n}[]`],
+      ["array-union", (n) => `Array<${n} | null>`],
+      ["tuple", (n) => `[string, ${n}?]`],
+      ["tuple-rest", (n) => `[number, ...${n}[]]`],
+      ["object", (n) => `{ v: string; next?: ${n} }`],
+      ["object-required", (n) => `{ v: string; next: ${n} | null }`],
+      ["record", (n) => `Record<string, ${n}>`],
+      ["record-finite", (n) => `Record<"a" | "b", ${n} | null>`],
+      ["index-signature", (n) => `{ [k: string]: ${n} }`],
+      ["union", (n) => `string | ${n}[] | { [k: string]: ${n} }`],
+      ["intersection", (n) => `{ a: string } & { b?: ${n} }`],
+      ["self", (n) => `${n}`],
+      ["self-union", (n) => `${n} | string`],
+      ["self-intersection", (n) => `${n} & { a: 1 }`],
+    ];
+    const operators = [
+      ["plain", (n) => n],
+      ["exclude-null", (n) => `Exclude<${n} | null, null>`],
+      ["exclude-self", (n) => `Exclude<${n}, ${n}>`],
+      ["extract", (n) => `Extract<${n} | string, ${n}>`],
+      ["conditional", (n) => `${n} extends string ? 1 : 2`],
+      ["conditional-right", (n) => `string[] extends ${n} ? 1 : 2`],
+      ["keyof", (n) => `keyof ${n}`],
+      ["indexed-number", (n) => `${n}[number]`],
+      ["indexed-key", (n) => `${n}["next"]`],
+      ["partial", (n) => `Partial<${n}>`],
+      ["required", (n) => `Required<${n}>`],
+      ["pick", (n) => `Pick<${n}, "v">`],
+      ["omit", (n) => `Omit<${n}, "v">`],
+      ["mapped", (n) => `{ [K in keyof ${n}]: ${n}[K] }`],
+      ["record-key", (n) => `Record<keyof ${n} & string, 1>`],
+      ["nonnullable", (n) => `NonNullable<${n}>`],
+      ["array-of", (n) => `${n}[]`],
+      ["intersect", (n) => `${n} & { extra: 1 }`],
+    ];
+    let k = 0;
+    for (const [cn, c] of containers)
+      for (const [on, o] of operators)
+        for (const mutual of [false, true]) {
+          k++;
+          if (k % ctx.of !== ctx.shard) continue;
+          const text = mutual ? `type N = ${c("M")};\ntype M = N | null;\nexport const P = parse.buildParsers<{ X: ${o("N")} }>();\n` : `type N = ${c("N")};\nexport const P = parse.buildParsers<{ X: ${o("N")} }>();\n`;
+          ctx.count("recursion-grid");
+          await judge(ctx, { files: { "entry.ts": text }, settings: { string_formats: [], number_formats: [] } }, `grid:${cn}/${on}${mutual ? "/mutual" : ""}`);
+        }
+  }
   // supported programs (success path: load + closure walk on realistic output)
-  const nSup = ctx.share(400, 8000);
+  const nSup = ctx.share(1600, 24000);
   for await (const item of corpus(ctx, { label: "C04-supported", count: nSup, features: {} })) {
     await judge(ctx, item.req, "supported");
   }
